@@ -191,6 +191,8 @@ func TestC16(t *testing.T) {
 		}
 	})
 
+	check(t, "wide-range", 1500, 12000, c16WideRange)
+
 	check(t, "generated", 2000, 15000, func(rt *rapid.T) {
 		gg := genGraph(rt, ggOpts{maxNodes: 8, perSample: true, continuousOnly: true, allOutputs: rapid.Bool().Draw(rt, "allOutputs")})
 		mp := gg.model(rt)
@@ -233,6 +235,80 @@ func TestC16(t *testing.T) {
 			rt.Fatalf("C16 violated by %s: %s", desc, v)
 		}
 	})
+}
+
+// c16WideRange: per-sample normalising and saturating operators (Softmax, LogSoftmax, Sigmoid,
+// Tanh, ReduceMax/Min over non-batch axes) on inputs whose magnitudes differ by far more than the
+// range of exp(): an implementation that shares a maximum, a scale or a code path between the
+// samples of a batch (or picks a kernel by the batch size) overflows for one of the two evaluations.
+func c16WideRange(rt *rapid.T) {
+	rank := rapid.IntRange(2, 4).Draw(rt, "rank")
+	n := rapid.SampledFrom([]int{1, 2, 2, 3, 4, 5, 9, 17}).Draw(rt, "N")
+	shape := []int{n}
+	for i := 1; i < rank; i++ {
+		shape = append(shape, rapid.IntRange(1, 5).Draw(rt, "extent"))
+	}
+	vals := drawMany(prod(shape), func() float64 {
+		sign := float64(rapid.SampledFrom([]int{-1, 1}).Draw(rt, "sign"))
+		switch rapid.IntRange(0, 5).Draw(rt, "magnitude") {
+		case 0:
+			return sign * float64(rapid.IntRange(50, 300).Draw(rt, "tens"))
+		case 1:
+			return sign * float64(rapid.IntRange(1000, 20000).Draw(rt, "thousands"))
+		case 2:
+			return sign * 1e30
+		}
+		return sign * float64(rapid.IntRange(0, 64).Draw(rt, "small")) / 16
+	})
+	x := toDtype(tensor.Float32, shape, vals)
+	op := rapid.SampledFrom([]string{"Softmax", "Softmax", "LogSoftmax", "LogSoftmax", "Sigmoid", "Tanh", "ReduceMax", "ReduceMin"}).Draw(rt, "op")
+	axis := rapid.IntRange(1, rank-1).Draw(rt, "axis")
+	spelled := int64(axis)
+	if rapid.Bool().Draw(rt, "negAxis") {
+		spelled = int64(axis - rank)
+	}
+	var attrs []*onnx.AttributeProto
+	switch op {
+	case "Softmax", "LogSoftmax":
+		if !(axis == rank-1 && rapid.Bool().Draw(rt, "defaultAxis")) {
+			attrs = append(attrs, attrI("axis", spelled))
+		}
+	case "ReduceMax", "ReduceMin":
+		attrs = append(attrs, attrInts("axes", spelled), attrI("keepdims", int64(rapid.IntRange(0, 1).Draw(rt, "keepdims"))))
+	}
+	dims := []any{"N"}
+	for _, d := range shape[1:] {
+		dims = append(dims, d)
+	}
+	g := &onnx.GraphProto{Input: []*onnx.ValueInfoProto{valueInfo("x", 1, dims...)}, Output: []*onnx.ValueInfoProto{valueInfoNoShape("y")}}
+	in := "x"
+	if rapid.Bool().Draw(rt, "scaled") {
+		// a per-feature scale in front (elementwise, exact for powers of two)
+		w := make([]float32, shape[rank-1])
+		for i := range w {
+			w[i] = rapid.SampledFrom([]float32{0.5, 1, 2, -1, -2}).Draw(rt, "scale")
+		}
+		g.Initializer = append(g.Initializer, protoOf("w", mkT([]int{shape[rank-1]}, w)))
+		g.Node = append(g.Node, mkNode("Mul", []string{"x", "w"}, []string{"xs"}))
+		in = "xs"
+	}
+	g.Node = append(g.Node, mkNode(op, []string{in}, []string{"y"}, attrs...))
+	lr := loadBytes(marshalModel(mkModel(g, 13)))
+	if lr.err != nil || lr.panicked {
+		rt.Fatalf("C16: wide-range model does not load: %v %v", lr.err, lr.panicVal)
+	}
+	bm := &batchModel{desc: "wide-range " + op, m: lr.m, inBatch: map[string]int{"x": 0}, outBatch: map[string]int{"y": 0}, depth: 2}
+	feed := gonnx.Tensors{"x": x}
+	desc := fmt.Sprintf("%s%s on %v N=%d #%x", op, descNode(g.Node[len(g.Node)-1]), shape, n, hashFeed(feed))
+	v, computed := bm.checkAll(rt, feed, n)
+	cls := []string{"wide-" + op, fmt.Sprintf("N=%d", n), fmt.Sprintf("rank-%d", rank)}
+	if !computed {
+		cls = append(cls, "batch-refused")
+	}
+	ev.Case("wide-range", desc, n >= 2 && computed, cls...)
+	if v != "" {
+		rt.Fatalf("C16 violated by %s: %s", desc, v)
+	}
 }
 
 func hashFeed(feed gonnx.Tensors) uint64 {
